@@ -206,6 +206,8 @@ def gen_plan(j, rng):
     if rng.random() < 0.15:
         # the host's wall clock is stepped between two operations (NTP correction, manual change, RTC-less boot)
         ops.insert(rng.randrange(0, len(ops) + 1), {"op": "jump", "s": rng.choice([-1.0, -3600.0, -86400.0 * 400, 86400.0, 45000.0])})
+    if rng.random() < 0.08:
+        cfg["host"] = rng.choice(["fd00::5", "::1", "fe80::1234:5678%eth0", "2001:db8::ac"])     # the unit is reached over IPv6
     if rng.random() < 0.2:
         # an unrelated device (other address, id, key, protocol version) and its client live in the same process
         cfg["bystander"] = {"version": rng.choice([2, 3]), "period": rng.choice([0.11, 0.3, 0.7, 1.3]),
